@@ -414,7 +414,7 @@ WITNESSES = {
 
 def build_mc(sc, warm):
     """skeleton + model configuration of a scenario from a traced sequential run of the real code"""
-    tr, res, st0 = extract_skeleton(sc, "001")
+    tr, res, st0 = extract_skeleton(sc, "001", tmpdir=(new_tmpdir() if sc["storage"] == "dir" else None))
     temp = [i[1] for i in tr.items if i[0] == "register"]
     temp = temp[0] if temp else None
     cached = None
@@ -440,6 +440,535 @@ def gen_witness_file():
                    % (name, "[" + "; ".join("(%d%%nat, %d%%nat)" % s for s in segs) + "]"))
         out.append("")
     return "\n".join(out)
+
+
+
+# ------------------------------------------------------------------------------------------------
+# running a scenario on the real code under the interleaver, and on the model
+# ------------------------------------------------------------------------------------------------
+
+_TMP_ROOT = os.path.join(lib.BUILD, "tmp_c15_%d" % os.getpid())
+_tmp_counter = itertools.count()
+
+
+def new_tmpdir():
+    d = os.path.join(_TMP_ROOT, "d%d" % next(_tmp_counter))
+    os.makedirs(d, exist_ok=True)
+    return d
+
+
+def cleanup_tmp():
+    shutil.rmtree(_TMP_ROOT, ignore_errors=True)
+
+
+def thread_runs(threads_ncalls):
+    """run ids per thread: thread i loads runs 0i1, 0i2, ..."""
+    return [["%d%d" % (tid + 1, call + 1) for call in range(n)] for tid, n in enumerate(threads_ncalls)]
+
+
+_ORACLE = {}
+
+
+def oracle(sc, run_id):
+    key = (sc["graph"], tuple(sc["targets"]), run_id)
+    if key not in _ORACLE:
+        from harness.props.c15 import quiet
+        with quiet():
+            st = make_context(dict(sc, storage="none"))
+            _ORACLE[key] = st.get_array(run_id, targets_arg(sc))
+    return _ORACLE[key]
+
+
+def same_array(a, b):
+    return a.dtype == b.dtype and len(a) == len(b) and all(np.array_equal(a[n], b[n]) for n in a.dtype.names)
+
+
+def run_real(sc, warm, threads_ncalls, sched):
+    """-> per thread dict(status, trace, exc, data_ok, unlabelled), and the Interleaver"""
+    from harness.props.c15 import quiet
+    tmpd = new_tmpdir() if sc["storage"] == "dir" else None
+    with quiet():
+        st = make_context(sc, tmpd)
+        if warm:
+            st.get_array("001", targets_arg(sc))
+    runs = thread_runs(threads_ncalls)
+
+    def mk(rs):
+        def f():
+            return [st.get_array(r, targets_arg(sc)) for r in rs]
+        return f
+
+    I = il.Interleaver()
+    with quiet():
+        ws = I.run([mk(rs) for rs in runs], sched)
+    out = []
+    for w, rs in zip(ws, runs):
+        status = classify_exc(w.exc)
+        ok = None
+        if w.exc is None:
+            ok = all(same_array(a, oracle(sc, r)) for a, r in zip(w.result, rs))
+        out.append(dict(status=status, trace=w.trace, exc=w.exc, data_ok=ok, unlabelled=w.unlabelled,
+                        msg=(repr(w.exc)[:160] if w.exc is not None else "")))
+    return out, st
+
+
+def family_of(sc, warm, mc, th):
+    """finding family of a crash of the real code: 'temp_plugin' (D7a), 'cache_fill' (D7b) or None (new)"""
+    st = th["status"]
+    if st[0] != "C":
+        return None
+    last = th["trace"][-1] if th["trace"] else None
+    msg = str(th["exc"])
+    multi = len(sc["targets"]) > 1
+    temp = mc.temp_name or "\0"
+    if st[1] == K_ITER:
+        if last in (1, 3, 20) and multi:
+            return "temp_plugin"
+        if last == 15 and not warm:
+            return "cache_fill"
+        return None
+    if st[1] == K_KEY:
+        if temp in msg and multi and last in (3, 7, 8, 24, 25, 26):
+            return "temp_plugin"
+        if temp not in msg and not warm and last in (3, 15):
+            return "cache_fill"
+    return None
+
+
+FINDING_WHAT = {
+    "temp_plugin": ("Context is not thread-safe for several same-kind targets (D7): get_iter registers a temporary "
+                    "merge plugin in the shared _plugin_class_registry and deletes every '_temp*' key afterwards; "
+                    "two worker threads of one multi-run call (2 runs, 2 targets, 2 workers) interleaved as in the "
+                    "witness make one worker fail with 'RuntimeError: dictionary changed size during iteration' "
+                    "(Context.register / _context_hash / _get_plugins iterate the registry) or KeyError on the "
+                    "deleted temporary plugin"),
+    "cache_fill": ("Context plugin cache is not thread-safe on a cold cache, even for ONE target (D7b): "
+                   "__get_requested_plugins_from_cache iterates the shared _fixed_plugin_cache while another worker's "
+                   "_plugins_to_cache inserts into it ('dictionary changed size during iteration'), and two workers "
+                   "that both see the cache as None replace each other's cache (KeyError on a plugin just reported "
+                   "as cached)"),
+}
+FINDING_WITNESS = {"temp_plugin": "wa1", "cache_fill": "wb1"}
+
+
+def witness_input(name):
+    sc, warm, ncalls, segs, exp = WITNESSES[name]
+    return {"scenario": {"graph": sc["graph"], "targets": list(sc["targets"]), "storage": sc["storage"]},
+            "cache": "warm" if warm else "cold", "threads_ncalls": ncalls, "segs": [list(s) for s in segs]}
+
+
+def compare(mres, rres):
+    """model (status, trace) per thread vs real; returns (agree, hazard, text)"""
+    hazard = any(ms[0] == "C" and ms[1] == K_HAZARD for ms, _ in mres)
+    if hazard:
+        return True, True, "hazard"
+    for tid, ((ms, mtr), r) in enumerate(zip(mres, rres)):
+        rs = r["status"]
+        if ms[0] == "D":
+            if rs[0] != "D":
+                return False, False, "thread %d: model finishes, real %s %s" % (tid, rs, r["msg"])
+        elif ms[0] == "C":
+            if rs[0] != "C" or rs[1] != ms[1]:
+                return False, False, "thread %d: model crashes %s, real %s %s" % (tid, ms, rs, r["msg"])
+        else:
+            return False, False, "thread %d: model status %s" % (tid, ms)
+        if mtr != r["trace"]:
+            d = next((i for i, (x, y) in enumerate(zip(mtr, r["trace"])) if x != y), min(len(mtr), len(r["trace"])))
+            return False, False, "thread %d: label traces differ at step %d (model %s / real %s)" % (
+                tid, d, mtr[max(0, d - 3):d + 3], r["trace"][max(0, d - 3):d + 3])
+        if r["unlabelled"]:
+            return False, False, "thread %d executed unlabelled shared-map lines %s" % (tid, r["unlabelled"][:3])
+    return True, False, "agree"
+
+
+class CtxState:
+    def __init__(self):
+        self.confirmed = set()      # finding families whose canonical witness crashed on the real code this run
+        self.instances = {"temp_plugin": 0, "cache_fill": 0}
+        self.nontriv = set()
+        self.dist = {}
+
+    def bump(self, k, n=1):
+        self.dist[k] = self.dist.get(k, 0) + n
+
+
+def judge(ctx, S, unit, sc, warm, ncalls, segs, mc, mres, rres):
+    """evaluate correspondence and the property predicate for one interleaved execution"""
+    case = {"scenario": {"graph": sc["graph"], "targets": list(sc["targets"]), "storage": sc["storage"]},
+            "cache": "warm" if warm else "cold", "threads_ncalls": list(ncalls), "segs": [list(x) for x in segs]}
+    agree, hazard, txt = compare(mres, rres)
+    S.bump("hazard_not_compared" if hazard else ("agree" if agree else "disagree"))
+    failing = False
+    for tid, r in enumerate(rres):
+        if r["status"][0] == "C" or r["status"][0] == "X":
+            fam = family_of(sc, warm, mc, r)
+            S.bump("real_crash")
+            if fam and fam in S.confirmed:
+                S.instances[fam] += 1
+            else:
+                failing = True
+                ctx.violation("ctx_race", "two or more threads calling get_array on one context: worker %d fails with %s "
+                              "under the line-level interleaving %s (sequentially all calls succeed)"
+                              % (tid, r["msg"], segs), {"input": case, "thread": tid, "error": r["msg"]})
+        elif r["data_ok"] is False:
+            failing = True
+            ctx.violation("ctx_race", "worker %d returned rows that differ from the sequential single-run call under the "
+                          "line-level interleaving %s" % (tid, segs), {"input": case, "thread": tid})
+    if not agree and not failing:
+        ctx.violation("ctx_race", "model and real code disagree under an interleaving (%s)" % txt,
+                      {"input": "corr:C15/ctx_race/%s" % unit, "case": case, "detail": txt}, no_failing_input=True)
+    return agree
+
+
+# ------------------------------------------------------------------------------------------------
+# units
+# ------------------------------------------------------------------------------------------------
+
+def scenarios(ctx):
+    big = ctx.thorough or bool(ctx.drift)
+    base = [("flat", ("src", "aa")), ("flat", ("aa",)), ("two", ("aa", "bb")), ("two", ("bb",)), ("chain", ("bb",)),
+            ("chain", ("bb", "aa")), ("three", ("cc",)), ("three", ("aa", "bb", "cc"))]
+    out = []
+    for g, t in base:
+        for stg in (("none", "meta", "dir") if big else ("none",)):
+            for warm in (False, True):
+                out.append((dict(graph=g, targets=t, storage=stg), warm))
+    if not big:
+        out = [x for x in out if x[0]["graph"] != "three" or not x[1]]
+        out += [(dict(graph="two", targets=("aa", "bb"), storage="meta"), False),
+                (dict(graph="chain", targets=("bb",), storage="dir"), False),
+                (dict(graph="two", targets=("aa", "bb"), storage="dir"), True)]
+    return out
+
+
+def unit_sequential(ctx, S):
+    """the model reproduces the label trace of a sequential call (cold and warm), the skeleton does not depend on
+    the cache, and warm single-target calls are read-only (premise of ctx_race_free_partial)"""
+    from harness.props.c15 import quiet
+    n = 0
+    for sc, _ in scenarios(ctx):
+        if _:
+            continue
+        tmpd = new_tmpdir() if sc["storage"] == "dir" else None
+        tr, res, st = extract_skeleton(sc, "001", tmpdir=tmpd)
+        temp = [i[1] for i in tr.items if i[0] == "register"]
+        temp = temp[0] if temp else None
+        mc = ModelCfg(sc, tr.items, temp, None)
+        mres, _got = run_model(mc, [1], [])
+        ok = mres[0][0] == ("D",) and mres[0][1] == tr.labels and not tr.unlabelled and same_array(res, oracle(sc, "001"))
+        # warm: second call on the same context
+        tr2 = SkeletonTracer()
+        with quiet():
+            sys.settrace(tr2.glob)
+            try:
+                res2 = st.get_array("002", targets_arg(sc))
+            finally:
+                sys.settrace(None)
+        cached = list(st._fixed_plugin_cache[st._context_hash()].keys())
+        mc2 = ModelCfg(sc, tr2.items, temp, cached)
+        mres2, _ = run_model(mc2, [1], [])
+        ok2 = (mres2[0][0] == ("D",) and mres2[0][1] == tr2.labels and not tr2.unlabelled and tr2.items == tr.items
+               and same_array(res2, oracle(sc, "002")))
+        n += 2
+        S.bump("sequential_cold")
+        S.bump("sequential_warm")
+        S.nontriv.add(lib.canon(["seq", sc]))
+        if not (ok and ok2):
+            ctx.violation("ctx_race", "the model does not reproduce the statement trace of a sequential get_array call "
+                          "(scenario %s; cold ok=%s warm ok=%s; unlabelled shared-map lines: %s)"
+                          % (sc, ok, ok2, (tr.unlabelled + tr2.unlabelled)[:4]),
+                          {"input": "corr:C15/ctx_race/sequential", "case": {"scenario": sc}}, no_failing_input=True)
+        if len(sc["targets"]) == 1:
+            w = sorted(set(tr2.labels) & il.WRITE_LABELS)
+            S.bump("partial_premise_checked")
+            if w:
+                ctx.violation("ctx_race", "a single-target call on a warm plugin cache executes writing statements %s: the "
+                              "hypothesis of ctx_race_free_partial no longer holds for the real code" % w,
+                              {"input": "theorem:C15_ctx_race_free_partial/premise", "case": {"scenario": sc}},
+                              no_failing_input=True)
+    ctx.count("ctx_race/sequential", n, 0)
+
+
+def unit_witnesses(ctx, S):
+    """replay the refuting interleavings of Proof/CtxRaceWitnessProof.v on the model and on the real code"""
+    eqs = []
+    for name, (sc, warm, ncalls, segs, exp) in WITNESSES.items():
+        mc, tr = build_mc(sc, warm)
+        cfg, sh, progs = coq_terms(mc, ncalls)
+        eqs.append("(%s_cfg, %s_sh, %s_progs) = (%s, %s, %s)" % (name, name, name, cfg, sh, progs))
+        mres, _ = run_model(mc, ncalls, segs)
+        rres, _st = run_real(sc, warm, ncalls, segs)
+        tid, kind, lab = exp
+        m_ok = mres[tid][0] == ("C", kind, lab)
+        r = rres[tid]
+        r_ok = r["status"] == ("C", kind) and r["trace"] and r["trace"][-1] == lab
+        agree, hazard, txt = compare(mres, rres)
+        S.bump("witness_replays")
+        S.nontriv.add(lib.canon(["witness", name]))
+        fam = "temp_plugin" if name.startswith("wa") else "cache_fill"
+        if r_ok and agree:
+            if FINDING_WITNESS[fam] == name:
+                S.confirmed.add(fam)
+                ctx.violation("ctx_race/" + fam, FINDING_WHAT[fam] + "; worker %d: %s" % (tid, r["msg"]),
+                              {"input": witness_input(name), "error": r["msg"], "model": list(mres[tid][0])})
+            else:
+                S.instances[fam] += 1
+        elif not m_ok:
+            ctx.violation("ctx_race", "the extracted model no longer refutes race freedom on witness %s (model %s)"
+                          % (name, mres[tid][0]), {"input": "corr:C15/ctx_race/witness-%s" % name,
+                                                   "case": witness_input(name)}, no_failing_input=True)
+        else:
+            # the model (and the Coq theorem) says crash, the real code does not: the code changed
+            bad = [x for x in rres if x["status"][0] != "D" or x["data_ok"] is False]
+            if bad:
+                ctx.violation("ctx_race", "witness %s: real code fails differently from the model: %s" % (name, bad[0]["msg"]),
+                              {"input": witness_input(name), "error": bad[0]["msg"]})
+            else:
+                ctx.violation("ctx_race", "witness %s of ctx_race_refuted no longer crashes the real code (%s): the model "
+                              "of the Context code is out of date" % (name, txt),
+                              {"input": "corr:C15/ctx_race/witness-%s" % name, "case": witness_input(name)},
+                              no_failing_input=True)
+    n, fails = lib.coq_crosscheck("C15W", "From SV Require Import Base.Prelude Model.CtxRace Model.CtxRaceWitness.", eqs)
+    ctx.coverage.setdefault("kernel_crosscheck", {})["witness_configs"] = {"equations": n, "failed_files": len(fails)}
+    if fails:
+        ctx.violation("ctx_race", "the configurations in coq/Model/CtxRaceWitness.v differ from the ones extracted from the "
+                      "real code now: " + fails[0][-300:], {"input": "corr:C15/ctx_race/witness-config", "log": fails[0]},
+                      no_failing_input=True)
+    ctx.count("ctx_race/witness", len(WITNESSES), 0)
+
+
+def random_segs(rng, nthreads, total):
+    k = rng.randint(1, 7)
+    segs = []
+    for _ in range(k):
+        segs.append((rng.randrange(nthreads), rng.choice([1, 2, 3, 5, 8, 13, 21, 34, 55, 89, 144])))
+    return segs
+
+
+def unit_interleave(ctx, S):
+    rng = ctx.rng
+    big = ctx.thorough or bool(ctx.drift)
+    n_eval = 0
+    per_class_cap = 40 if big else 5
+    n_random = 25 if big else 3
+    for sc, warm in scenarios(ctx):
+        t_sc = lib.now()
+        mc, tr = build_mc(sc, warm)
+        steps = len(tr.labels)
+        stride = 1 if big else max(1, steps // 60)
+        out = lib.run_model("C15", ["ctxsearch " + mc.encode([1, 1], [stride, stride, 2])])[0]
+        toks = [int(x) for x in out.split()[2:]]
+        classes = [toks[i:i + 6] for i in range(0, len(toks), 6)]
+        S.bump("model_crash_classes", len(classes))
+        if len(sc["targets"]) == 1 and warm and classes:
+            ctx.violation("ctx_race", "the model finds a crashing interleaving for a single target on a warm cache: %s"
+                          % classes[0], {"input": "theorem:C15_ctx_race_free_partial", "case": {"scenario": sc}},
+                          no_failing_input=True)
+        rng.shuffle(classes)
+        todo = []
+        for tid, k, lb, a, b, c in classes[:per_class_cap]:
+            if k == K_HAZARD:
+                continue
+            segs = [(0, a), (1, b), (0, 100000)] if c < 0 else [(0, a), (1, b), (0, c), (1, 100000), (0, 100000)]
+            todo.append(([1, 1], segs))
+        for _ in range(n_random):
+            nth = rng.choice([2, 2, 3])
+            ncalls = [rng.choice([1, 1, 2]) for _ in range(nth)]
+            todo.append((ncalls, random_segs(rng, nth, steps)))
+        mlines = []
+        for ncalls, segs in todo:
+            extra = [len(segs)]
+            for t, n in segs:
+                extra += [t, n]
+            mlines.append("ctx " + mc.encode(ncalls, extra))
+        mouts = lib.run_model("C15", mlines)
+        for (ncalls, segs), mo in zip(todo, mouts):
+            mres, _ = parse_model_out(mo)
+            rres, _st = run_real(sc, warm, ncalls, segs)
+            judge(ctx, S, "interleave", sc, warm, ncalls, segs, mc, mres, rres)
+            n_eval += 1
+            S.nontriv.add(lib.canon([sc, warm, ncalls, segs]))
+        sys.stderr.write("[C15] interleave %s %s %s: %d classes, %d replays, %.1fs\n"
+                         % (sc["graph"], ",".join(sc["targets"]), "warm" if warm else "cold", len(classes), len(todo),
+                            lib.now() - t_sc))
+    ctx.count("ctx_race/interleave", n_eval, 0)
+
+
+
+# ------------------------------------------------------------------------------------------------
+# real multi-run calls under OS schedules amplified by a 1 microsecond switch interval (confirmation only)
+# ------------------------------------------------------------------------------------------------
+
+class FailingRun(Exception):
+    pass
+
+
+def make_context_os(sc, tmpdir, fail_runs):
+    """like make_context, but the source plugin raises for the runs in fail_runs"""
+    st = make_context(sc, tmpdir)
+    if fail_runs:
+        src_cls = st._plugin_class_registry["src"]
+        orig = src_cls.compute
+
+        def compute(self, chunk_i):
+            if self.run_id in fail_runs:
+                raise FailingRun(self.run_id)
+            return orig(self, chunk_i)
+        src_cls.compute = compute
+    return st
+
+
+def expected_multi(sc, runs, fail_runs):
+    parts = []
+    for r in sorted(runs):
+        if r in fail_runs:
+            continue
+        a = oracle(sc, r)
+        ids = np.array([r] * len(a), dtype=[("run_id", np.array(runs).dtype)])
+        parts.append(strax.merge_arrs([ids, a]))
+    return np.concatenate(parts) if parts else None
+
+
+def unit_os_schedule(ctx, S):
+    from harness.props.c15 import quiet
+    rng = ctx.rng
+    big = ctx.thorough or bool(ctx.drift)
+    ntr = 260 if big else 36
+    old = sys.getswitchinterval()
+    dist = {"warm_single_ok": 0, "cold_or_multi_ok": 0, "known_race_crash": 0, "failing_run_cases": 0}
+    n = 0
+    try:
+        sys.setswitchinterval(1e-6)
+        for trial in range(ntr):
+            g, targets = rng.choice([("flat", ("aa",)), ("chain", ("bb",)), ("three", ("cc",)), ("two", ("aa", "bb")),
+                                     ("three", ("aa", "bb", "cc"))])
+            mode = trial % 3          # 0: warm single target (strict), 1: cold single, 2: several targets
+            if mode == 0 and len(targets) > 1:
+                targets = targets[-1:]
+            if mode == 1 and len(targets) > 1:
+                targets = targets[:1]
+            if mode == 2 and len(targets) == 1:
+                g, targets = "two", ("aa", "bb")
+            storage = rng.choice(["none", "none", "dir", "meta"])
+            sc = dict(graph=g, targets=targets, storage=storage)
+            nruns = rng.randint(2, 8)
+            w = rng.randint(1, 8)
+            runs = ["%03d" % x for x in rng.sample(range(100, 400), nruns)]
+            fail = set(rng.sample(runs, 1)) if rng.random() < 0.3 else set()
+            ignore = bool(fail) and rng.random() < 0.6
+            api = rng.choice(["get_array", "get_array", "get_df", "make"]) if storage == "dir" else \
+                rng.choice(["get_array", "get_array", "get_df"])
+            tmpd = new_tmpdir() if storage == "dir" else None
+            case = {"scenario": {"graph": g, "targets": list(targets), "storage": storage}, "runs": runs, "workers": w,
+                    "fail": sorted(fail), "ignore_errors": ignore, "api": api, "mode": ["warm", "cold", "multi"][mode]}
+            with quiet():
+                st = make_context_os(sc, tmpd, fail)
+                if mode == 0:
+                    st.get_array("001", targets_arg(sc))
+                exc = None
+                got = None
+                try:
+                    kw = dict(max_workers=w, multi_run_progress_bar=False)
+                    if ignore:
+                        kw["ignore_errors"] = True
+                    if api == "make":
+                        st.make(runs, targets_arg(sc), **kw)
+                        got = np.concatenate([strax.merge_arrs([np.array([r] * len(oracle(sc, r)),
+                                                                dtype=[("run_id", np.array(runs).dtype)]),
+                                                                st.get_array(r, targets_arg(sc))])
+                                              for r in sorted(runs) if r not in fail]) if len(fail) < len(runs) else None
+                    elif api == "get_df":
+                        got = st.get_df(runs, targets_arg(sc), **kw)
+                    else:
+                        got = st.get_array(runs, targets_arg(sc), **kw)
+                except BaseException as e:  # noqa
+                    exc = e
+            n += 1
+            dist["failing_run_cases"] += bool(fail)
+            S.nontriv.add(lib.canon(["os", case]))
+            expect_raise = bool(fail) and not ignore
+            exp = expected_multi(sc, runs, fail)
+            reason = None
+            if exc is not None:
+                if expect_raise and isinstance(exc, FailingRun):
+                    pass
+                elif isinstance(exc, (ValueError,)) and expect_raise and "Failed to process" in str(exc):
+                    pass
+                else:
+                    st_c = classify_exc(exc)
+                    if mode != 0 and st_c[0] == "C":
+                        dist["known_race_crash"] += 1      # D7: confirmation only, never an alarm
+                        continue
+                    reason = "raised %r" % (exc,)
+            elif expect_raise:
+                reason = "a run failed and errors are not ignored, but the call returned normally"
+            else:
+                if api == "get_df":
+                    ok = exp is not None and len(got) == len(exp) and all(
+                        list(got[c]) == list(exp[c]) for c in exp.dtype.names)
+                else:
+                    ok = exp is not None and got is not None and same_array(got, exp)
+                if not ok:
+                    reason = "result differs from the sequential single-run calls concatenated in run-id order"
+            if reason is None:
+                dist["warm_single_ok" if mode == 0 else "cold_or_multi_ok"] += 1
+            elif mode == 0 or not isinstance(exc, (RuntimeError, KeyError)):
+                # deterministic expectation (warm single target, or wrong data / lost run): alarm with the input
+                ctx.violation("multi_run_context", "Context.%s over %d runs with %d workers (%s): %s"
+                              % (api, nruns, w, case["mode"], reason), {"input": case, "reason": reason})
+            else:
+                dist["known_race_crash"] += 1
+    finally:
+        sys.setswitchinterval(old)
+    ctx.count("context_multi_run/os_schedule", n, 0, dist)
+
+
+def run(ctx):
+    S = CtxState()
+    ctx.coverage["rule"] += (
+        " | ctx_race: scenarios = plugin graphs (flat/two/chain/three) x single or several same-kind targets x storage "
+        "none/meta/dir x cold/warm plugin cache; per scenario the crash classes found by the extracted model "
+        "(2 threads, <=3 context switches, exhaustive in the thorough tier) and random schedules (2-3 threads, 1-2 "
+        "calls each) are replayed on the real code with the line-level interleaver; non-trivial = an interleaved "
+        "execution with at least one context switch inside the plugin-resolution code; distinct by canonical JSON "
+        "of (scenario, cache, calls per thread, schedule).")
+    try:
+        unit_sequential(ctx, S)
+        unit_witnesses(ctx, S)
+        unit_interleave(ctx, S)
+        unit_os_schedule(ctx, S)
+    finally:
+        cleanup_tmp()
+    S.dist["instances_of_known_temp_plugin_race"] = S.instances["temp_plugin"]
+    S.dist["instances_of_known_cache_fill_race"] = S.instances["cache_fill"]
+    ctx.count("ctx_race", 0, len(S.nontriv), S.dist)
+    ctx.assumptions.append("CPython switches threads between bytecodes; the model and the interleaver switch only "
+                           "between labelled source lines (coarser: every replayed interleaving is a real one)")
+    ctx.assumptions.append("dict iterators fail exactly when the dict size changed since the iterator was created "
+                           "(CPython dictiter); same-size structural changes are flagged as hazards and not compared")
+    ctx.assumptions.append("the context hash is constant during a multi-run call (config and non-temporary registry "
+                           "entries unchanged)")
+    ctx.assumptions.append("PYTHONHASHSEED=0 (set by bin/check): list(set(targets)) order is part of the witness configs")
+
+
+def replay(ctx, obj):
+    r = obj["replay"]
+    inp = r.get("case") or r.get("input")
+    if isinstance(inp, dict) and "segs" in inp:
+        sc = dict(inp["scenario"])
+        sc["targets"] = tuple(sc["targets"])
+        warm = inp["cache"] == "warm"
+        segs = [tuple(x) for x in inp["segs"]]
+        rres, _ = run_real(sc, warm, inp["threads_ncalls"], segs)
+        bad = 0
+        for tid, x in enumerate(rres):
+            print("worker", tid, x["status"], x["msg"], "rows equal sequential:", x["data_ok"], "steps:", len(x["trace"]))
+            if x["status"][0] != "D" or x["data_ok"] is False:
+                bad = 1
+        cleanup_tmp()
+        return bad
+    print("nothing to replay for", inp)
+    return 0
 
 
 if __name__ == "__main__":
